@@ -10,6 +10,20 @@ use crate::util::{Args, Out};
 use serde_json::{json, Value};
 use std::net::Ipv4Addr;
 
+/// For every address of `servers` that the lookup did not query: how many DISTINCT node ids the answers listed at that IP
+/// (two or more = a stale id of the node - e.g. from before it re-keyed - next to its current one: the per-IP rule of the
+/// candidate list keeps only the first it hears of, KF-C07-1 / KF-C11-1).
+fn shadowed(tr: &LookupTrace, servers: &[std::net::SocketAddrV4], me: std::net::SocketAddrV4) -> Vec<Value> {
+    servers
+        .iter()
+        .filter(|a| **a != me && !tr.queried.contains(a))
+        .map(|a| {
+            let ids: std::collections::HashSet<[u8; 20]> = tr.listed.iter().filter(|e| e.addr.ip() == a.ip()).map(|e| e.id).collect();
+            json!([a.to_string(), ids.len()])
+        })
+        .collect()
+}
+
 pub fn one_net(b: u64, spec: &NetSpec, lookups: bool) -> Value {
     let mut net = build(spec);
     let mut rng = Rng::new(spec.seed ^ 0x13);
@@ -69,14 +83,23 @@ pub fn one_net(b: u64, spec: &NetSpec, lookups: bool) -> Value {
                 let kind = if i % 2 == 0 { GetKind::FindNode } else { GetKind::Immutable };
                 let (call, log0) = do_lookup(&mut net, n, kind, late_id, "by_id");
                 let tr = lookup_trace(&net.sim, n, &late_id, log0, call.done_ns().unwrap_or(net.sim.now_ns()));
-                lks.push(json!({"n":n,"done":call.done(),"queried":tr.queried.iter().map(|a| a.to_string()).collect::<Vec<_>>(),"by_id":true}));
+                if std::env::var("JOIN_DUMP").is_ok() {
+                    let la = net.sim.nodes[late].addr;
+                    eprintln!("by_id n={n} kind={} queried={} late_queried={} listed_late={:?} answered={}", if i % 2 == 0 { "fn" } else { "get" }, tr.queried.len(), tr.queried.contains(&la),
+                        tr.listed.iter().filter(|e| e.addr == la).map(|e| crate::bencode::hex(&e.id[..4])).collect::<Vec<_>>(), tr.answered.len());
+                }
+                let sv: Vec<std::net::SocketAddrV4> = net.servers.iter().filter(|&&x| net.sim.nodes[x].alive).map(|&x| net.sim.nodes[x].addr).collect();
+                lks.push(json!({"n":n,"done":call.done(),"queried":tr.queried.iter().map(|a| a.to_string()).collect::<Vec<_>>(),"by_id":true,
+                    "missed_ids_listed": shadowed(&tr, &sv, net.sim.nodes[n].addr)}));
             }
         }
         for &n in &all {
             let target = rng.id();
             let (call, log0) = do_lookup(&mut net, n, GetKind::Immutable, target, "l");
             let tr = lookup_trace(&net.sim, n, &target, log0, call.done_ns().unwrap_or(net.sim.now_ns()));
-            lks.push(json!({"n":n,"done":call.done(),"queried":tr.queried.iter().map(|a| a.to_string()).collect::<Vec<_>>()}));
+            let sv: Vec<std::net::SocketAddrV4> = net.servers.iter().filter(|&&x| net.sim.nodes[x].alive).map(|&x| net.sim.nodes[x].addr).collect();
+            lks.push(json!({"n":n,"done":call.done(),"queried":tr.queried.iter().map(|a| a.to_string()).collect::<Vec<_>>(),
+                "missed_ids_listed": shadowed(&tr, &sv, net.sim.nodes[n].addr)}));
         }
 
     }
